@@ -44,6 +44,7 @@ class NdefApp(object):
         self.executed = []          # every APDU executed, in order
         self.state_changes = 0
         self.write_log = []
+        self.write_units = []
 
     def reset(self):
         self.selected_app = False
@@ -121,6 +122,7 @@ class NdefApp(object):
             f[off:off + lc] = data
             self.state_changes += 1
             self.write_log.append(off)
+            self.write_units.append((off, lc))
             return b"\x90\x00"
         return b"\x6D\x00"
 
@@ -159,6 +161,10 @@ class T4TSilicon(object):
     @property
     def mem(self):
         return bytes(self.app.files[self.app.ndef_fid])
+
+    @property
+    def write_units(self):
+        return self.app.write_units
 
     def field_off(self):
         self.state = "idle"
